@@ -207,3 +207,17 @@ Proof. intros p zod w w'.
 
 Corollary noise_files_equiv : forall p p' zod w w', strip_noise_files p = strip_noise_files p' -> gen zod w p = gen zod w' p'.
 Proof. intros p p' zod w w' H. rewrite (noise_files_eq p zod w w), (noise_files_eq p' zod w' w), H. reflexivity. Qed.
+
+Require Import TT.Proofs.TopoProofs.
+(* ---------------- the two class predicates decide what they are named after ---------------- *)
+Lemma has_dup_false_iff l : has_dup l = false <-> NoDup l.
+Proof. split; [apply has_dup_NoDup|]. induction 1 as [|x l Hx _ IH]; cbn [has_dup]; auto.
+  apply orb_false_iff. split; auto. apply memb_false. exact Hx. Qed.
+Theorem kf_dupdef_spec p : kf_dupdef p = false <-> NoDup (map t_name (all_types p)).
+Proof. unfold kf_dupdef. apply has_dup_false_iff. Qed.
+Theorem kf_dupevent_spec p : kf_dupevent p = false <-> consistent (all_events p).
+Proof. split; [apply dupevent_consistent|]. intros Hc. unfold kf_dupevent. fold (all_events p).
+  destruct (existsb _ (all_events p)) eqn:E; auto. exfalso.
+  apply existsb_exists in E as (a & Ha & E). apply existsb_exists in E as (b & Hb & E).
+  apply andb_true_iff in E as [E1 E2]. apply Nat.eqb_eq in E1. apply negb_true_iff in E2. apply Nat.eqb_neq in E2.
+  apply E2. apply Hc; auto. Qed.
